@@ -321,7 +321,9 @@ func withOracle(c *Ctx, f func(o *oracleState, st *seqStep), gen func(c *Ctx)) {
 
 func genC05(c *Ctx) { withOracle(c, (*oracleState).c05, genSeq) }
 func genC12(c *Ctx) {
+	bw := startBufWatch()
 	withOracle(c, (*oracleState).c12, genSeq)
+	bw.emit(c)
 	genConnect(c)
 }
 
